@@ -149,6 +149,13 @@ def dim_transforms(dc):
 
 def transforms_dict(cfg):
     t = {}
+    pw = cfg.get("pairwise")
+    if pw:
+        t["pairwise_indices"] = {}
+        if pw.get("alpha"):
+            t["pairwise_indices"]["alpha"] = list(pw["alpha"])
+        if "only_larger" in pw:
+            t["pairwise_indices"]["only_larger"] = pw["only_larger"]
     r = dim_transforms(cfg["rows"])
     c = dim_transforms(cfg["cols"])
     if r:
@@ -223,7 +230,8 @@ def insertion_configs(rows_dim, cols_dim, n, seed, allow_diff=True, max_ins=2):
         ins = [insertion("R1", "top", [a, b], id=21),
                insertion("R2", b, [a, b], [c], id=22),
                insertion("R3", "bottom", [c], [a, b], id=23),
-               insertion("R4", a, [a], [c], id=24)]
+               insertion("R4", a, [a], [c], id=24),
+               insertion("R5", c, [b, c], id=25)]
         return dimcfg(vins=ins) if on_view else dimcfg(xins=ins)
 
     if allow_diff:
